@@ -120,6 +120,27 @@ func bytesUniverse(t *rapid.T, k Kind, profile string) *universe {
 			}
 			return key
 		}
+	case "giant":
+		// keys around the 8-bit and 16-bit length boundaries (a length or path-length field narrowed
+		// "to save space" only shows with such keys)
+		l := pick(t, []int{255, 256, 257, 65535, 65536, 65537, 70000}, "giantlen")
+		stem := make([]byte, l)
+		for i := range stem {
+			stem[i] = 'a' + byte(i%7)
+		}
+		alt := clone(stem)
+		alt[l-3] ^= 1
+		tails := [][]byte{nil, []byte("a"), []byte("b"), []byte("ab"), []byte("\x80")}
+		u.draw = func(t *rapid.T) []byte {
+			base := stem
+			switch drawInt(t, 0, 5, "giantbase") {
+			case 0:
+				base = alt
+			case 1:
+				base = stem[:l/2]
+			}
+			return append(clone(base), pick(t, tails, "gianttail")...)
+		}
 	case "deep":
 		u.draw = func(t *rapid.T) []byte {
 			n := drawInt(t, 0, 40, "deeplen")
@@ -456,7 +477,7 @@ func drawUniverse(t *rapid.T, k Kind, profiles []string) *universe {
 		return bytesUniverse(t, k, pick(t, profiles, "profile"))
 	}
 	if profiles == nil {
-		profiles = []string{"dense", "dense", "dense", "fan", "fan", "deep", "nul"}
+		profiles = []string{"dense", "dense", "dense", "dense", "dense", "dense", "fan", "fan", "fan", "fan", "fan", "deep", "deep", "deep", "nul", "nul", "nul", "nul", "dense", "giant"}
 	}
 	return bytesUniverse(t, k, pick(t, profiles, "profile"))
 }
